@@ -5,6 +5,7 @@
     theorem C07_no_fault : CppFullOk t → ∀ bs e, Cpp.decode t bs e ≠ .fault
 -/
 import ProphyModel.Cpp
+import ProphyModel.Lemmas.CppDecodeSafe
 namespace Prophy.C07
 open Prophy Prophy.Cpp
 
@@ -59,5 +60,23 @@ theorem C07_align_safe (a size pos : Nat) (rs : List Nat) :
   split at h
   · cases h
   · injection h with _ h2 _; omega
+
+
+/-- FULL STATEMENT (memory safety): for EVERY schema tree and EVERY byte string the generated
+    decoder never reads outside `[data, data + size)`; wherever it stops it is inside the input -/
+theorem C07_decode_no_fault (t : Ty) (data : Bytes) (e : Endian) : decode t data e ≠ .fault :=
+  Cpp.decode_no_fault t data e
+
+theorem C07_decTy_safe (e : Endian) (t : Ty) (data : Bytes) (pos : Nat) (rs : List Nat) (hpos : pos ≤ data.length) :
+    (decTy e t data pos rs).1 ≠ .fault ∧
+    ∀ v pos' rs', (decTy e t data pos rs).1 = .ok v pos' rs' → pos' ≤ data.length :=
+  Cpp.decTy_safe e t data pos rs hpos
+
+/-- no allocation disproportionate to the input: every `resize(n)` the decoder requests has
+    `n ≤ size` of the input, and `n ≤ resizeLimit` unless the run ends in the allocation exception -/
+theorem C07_resizes_bounded (t : Ty) (data : Bytes) (e : Endian) :
+    ∀ n ∈ (decode t data e).resizes,
+      n ≤ data.length ∧ ((decode t data e).isException = false → n ≤ resizeLimit) :=
+  Cpp.decode_resizes_bounded t data e
 
 end Prophy.C07
